@@ -62,8 +62,8 @@ RULE = ("geom: a case is one generated geometry (shape, anisotropic pixel scales
         "unmasked (ctor)")
 BOUNDS = {"quick": "2400 geometries with H,W in [1,12] (5 interior points per pixel, >= 1e-8 px from pixel boundaries), 2000 constructor "
                    "parameter sets x 5 constructors with H,W in [1,12], 400 1-D masks of length <= 12",
-          "thorough": "20000 geometries with H,W in [1,40] (6 interior points per pixel, >= 1e-8 px from pixel boundaries), 20000 constructor "
-                      "parameter sets x 5 constructors with H,W in [1,40], 5000 1-D masks of length <= 40"}
+          "thorough": "12000 geometries with H,W in [1,40] (6 interior points per pixel, >= 1e-8 px from pixel boundaries), 12000 constructor "
+                      "parameter sets x 5 constructors with H,W in [1,40], 3000 1-D masks of length <= 40"}
 EXHAUSTIVE = {"quick": False, "thorough": False}
 ASSUMPTIONS = ["coordinates are compared with an absolute tolerance of 1e-9 pixel per axis (origin <= 100 pixel scales, so "
                "accumulated rounding stays < 1e-11 pixel)",
@@ -88,7 +88,7 @@ MIN_MONITORS = {"*": dict({c: 1 for c in _CONTRACTS},
                              "ctor.geometry_kept": 1,
                              "dim1.grid": 1, "dim1.uniform": 1, "dim1.extent": 1})}
 
-_N = {"quick": {"geom": 2400, "ctor": 2000, "dim1": 400}, "thorough": {"geom": 20000, "ctor": 20000, "dim1": 5000}}
+_N = {"quick": {"geom": 2400, "ctor": 2000, "dim1": 400}, "thorough": {"geom": 12000, "ctor": 12000, "dim1": 3000}}
 _CHUNK = {"quick": {"geom": 20, "ctor": 25, "dim1": 100}, "thorough": {"geom": 25, "ctor": 50, "dim1": 250}}
 _KIND_NO = {"geom": 1, "ctor": 2, "dim1": 3}
 
